@@ -401,6 +401,18 @@ func gen(a Args, out *Out) {
 		}
 		emit(kind, List(Int(1), Int(int64(ver)), Int(int64(thr)), Int(int64(cidx)), Uint(rng.Next()&0xFFFFFFFF), ListOf(ps), genSizes(rng, approx)))
 	}
+	// 1b. the default thresholds (NewV1Encoder / NewV2Encoder with threshold <= 0): bodies one below,
+	// at and one above, compressible
+	for _, ver := range []int{1, 2} {
+		for _, thr := range []int{0, -1} {
+			t := EffThreshold(ver, thr)
+			for _, bl := range []int{t - 1, t, t + 1} {
+				body := List(Int(5), Uint(uint64(uint32(rng.Next())|1)), Int(int64(bl)), Int(1))
+				p := List(Int(int64(int32(rng.Next()))), Int(int64(rng.Intn(65536))), Int(0x40), Int(0), Uint(9), ListOf(nil), body)
+				emit("default-threshold", List(Int(1), Int(int64(ver)), Int(int64(thr)), Int(int64(rng.PickInt(0, 3))), Uint(rng.Next()&0xFFFFFFFF), List(p), genSizes(rng, bl)))
+			}
+		}
+	}
 	// 2. the frame-size limits: V1 at 60 KiB (body so that header+body = limit-1, limit, limit+1),
 	// without and with cipher, with compression off (huge threshold) and on (incompressible
 	// body grows, compressible shrinks)
